@@ -482,3 +482,156 @@ pub fn nudge(x: f64, k: i32) -> f64 {
   }
   v
 }
+
+// ---------------------------------------------------------------------------------------------
+// R3: RING order for any nside (exact integers; u128 + exact integer square root)
+// ---------------------------------------------------------------------------------------------
+
+pub fn isqrt_u128(v: u128) -> u128 {
+  if v < 2 {
+    return v;
+  }
+  let mut x = (v as f64).sqrt() as u128;
+  // Newton + correction
+  loop {
+    let y = (x + v / x) >> 1;
+    if y >= x {
+      break;
+    }
+    x = y;
+  }
+  while x * x > v {
+    x -= 1;
+  }
+  while (x + 1) * (x + 1) <= v {
+    x += 1;
+  }
+  x
+}
+
+pub fn ring_n_hash(n: u64) -> u64 {
+  12 * n * n
+}
+
+/// Number of cells in the rings 1..=j (j counted from the north pole, 1..=4n-1).
+fn cells_before_ring(n: u64, j: u64) -> u64 {
+  // rings 1..j-1
+  let jm = j - 1;
+  if jm <= n {
+    2 * jm * (jm + 1)
+  } else if jm < 3 * n {
+    2 * n * (n + 1) + (jm - n) * 4 * n
+  } else {
+    // south cap rings: ring j' = 4n - j has 4 j' cells
+    let total = 12 * n * n;
+    let jp = 4 * n - 1 - jm; // number of rings remaining after jm ... rings jm+1..4n-1 => j' = 4n-jm-1 .. 1
+    total - 2 * jp * (jp + 1)
+  }
+}
+
+/// (ring j counted from the north pole in 1..=4n-1, index in ring) of a RING index.
+pub fn ring_decode(n: u64, r: u64) -> (u64, u64) {
+  let ncap = 2 * n * (n + 1); // north cap including the transition ring
+  let total = 12 * n * n;
+  if r < ncap {
+    // largest j with 2 (j-1) j <= r
+    let s = isqrt_u128(1 + 2 * r as u128) as u64; // floor(sqrt(1+2r))
+    let mut j = (s + 1) / 2; // candidate
+    while 2 * (j - 1) * j > r {
+      j -= 1;
+    }
+    while 2 * j * (j + 1) <= r {
+      j += 1;
+    }
+    (j, r - 2 * (j - 1) * j)
+  } else if r < total - ncap {
+    let k = (r - ncap) / (4 * n);
+    (n + 1 + k, (r - ncap) % (4 * n))
+  } else {
+    let rr = total - 1 - r; // counted from the south pole, reversed
+    let s = isqrt_u128(1 + 2 * rr as u128) as u64;
+    let mut jp = (s + 1) / 2;
+    while 2 * (jp - 1) * jp > rr {
+      jp -= 1;
+    }
+    while 2 * jp * (jp + 1) <= rr {
+      jp += 1;
+    }
+    let idx_rev = rr - 2 * (jp - 1) * jp;
+    (4 * n - jp, 4 * jp - 1 - idx_rev)
+  }
+}
+
+/// Lattice centre (X in [0, 8n), Y) of the RING cell r for any nside n.
+pub fn ring_center(n: u64, r: u64) -> (i64, i64) {
+  let (j, idx) = ring_decode(n, r);
+  let ni = n as i64;
+  let y = 2 * ni - j as i64;
+  let x = if j <= n {
+    let q = idx / j;
+    let m = idx % j;
+    2 * q as i64 * ni + (ni - j as i64 + 1) + 2 * m as i64
+  } else if j < 3 * n {
+    let s = (y + ni + 1).rem_euclid(2);
+    s + 2 * idx as i64
+  } else {
+    let jp = 4 * n - j;
+    let q = idx / jp;
+    let m = idx % jp;
+    2 * q as i64 * ni + (ni - jp as i64 + 1) + 2 * m as i64
+  };
+  (x, y)
+}
+
+/// RING index of the cell whose lattice centre is (X, Y), if it is one.
+pub fn ring_index(n: u64, x: i64, y: i64) -> Option<u64> {
+  let ni = n as i64;
+  let x = x.rem_euclid(8 * ni);
+  let j = 2 * ni - y;
+  if j < 1 || j > 4 * ni - 1 {
+    return None;
+  }
+  let j = j as u64;
+  let before = cells_before_ring(n, j);
+  let idx = if j <= n || j >= 3 * n {
+    let jp = if j <= n { j } else { 4 * n - j } as i64;
+    let q = x / (2 * ni);
+    let off = x - 2 * q * ni - (ni - jp + 1);
+    if off < 0 || off % 2 != 0 || off / 2 >= jp {
+      return None;
+    }
+    (q * jp + off / 2) as u64
+  } else {
+    let s = (y + ni + 1).rem_euclid(2);
+    if (x - s) % 2 != 0 {
+      return None;
+    }
+    ((x - s) / 2) as u64
+  };
+  Some(before + idx)
+}
+
+pub fn r3_self_check() {
+  for n in [1u64, 2, 3, 4, 5, 7, 8, 16] {
+    let total = ring_n_hash(n);
+    let mut prev: Option<(i64, i64)> = None;
+    for r in 0..total {
+      let (x, y) = ring_center(n, r);
+      assert_eq!(ring_index(n, x, y), Some(r), "oracle: R3 inverse n={} r={}", n, r);
+      if let Some((px, py)) = prev {
+        assert!(y < py || (y == py && x > px), "oracle: R3 order n={} r={}", n, r);
+      }
+      prev = Some((x, y));
+      if n.is_power_of_two() {
+        let d = n.trailing_zeros() as u8;
+        assert!(cell_from_center(d, x, y).is_some(), "oracle: R3 centre is not a NESTED centre n={} r={}", n, r);
+      }
+    }
+  }
+  // large values stay exact
+  let n = 1u64 << 29;
+  for r in [0u64, 3, 4, 2 * n * (n + 1) - 1, 2 * n * (n + 1), 12 * n * n - 1, 6 * n * n] {
+    let (x, y) = ring_center(n, r);
+    assert_eq!(ring_index(n, x, y), Some(r));
+  }
+}
